@@ -126,7 +126,7 @@ def canonical_rle(seq):
     return [x for v, c in to_runs(list(seq)) for x in (v, c)]
 
 
-CALL_LIMIT_S = 30     # a call on an input of a few hundred elements that has not returned by then never will
+CALL_LIMIT_S = 20     # CPU seconds: a call on an input of a few hundred elements that burnt this much never returns
 
 
 class CallTimeout(Exception):
@@ -144,20 +144,22 @@ class SkipCall(Exception):
 def time_limit(key, seconds=CALL_LIMIT_S):
     """the observed call must return: a call that loops forever is recorded as raising CallTimeout
     (an observation of the real code) instead of hanging the check; after three such observations
-    of one function a worker stops calling it (nothing is recorded for the skipped calls)"""
+    of one function a worker stops calling it (nothing is recorded for the skipped calls).
+    The limit is on CPU time consumed by this process (ITIMER_PROF), not on wall time, so a worker
+    starved by other jobs on the machine cannot produce a timeout."""
     if TIMEOUTS.get(key, 0) >= 3:
         raise SkipCall()
 
     def on_alarm(signum, frame):
         TIMEOUTS[key] = TIMEOUTS.get(key, 0) + 1
         raise CallTimeout()
-    old = signal.signal(signal.SIGALRM, on_alarm)
-    signal.setitimer(signal.ITIMER_REAL, seconds)
+    old = signal.signal(signal.SIGPROF, on_alarm)
+    signal.setitimer(signal.ITIMER_PROF, seconds)
     try:
         yield
     finally:
-        signal.setitimer(signal.ITIMER_REAL, 0)
-        signal.signal(signal.SIGALRM, old)
+        signal.setitimer(signal.ITIMER_PROF, 0)
+        signal.signal(signal.SIGPROF, old)
 
 
 class Recorder:
@@ -667,7 +669,7 @@ def gen_enc_cases(chunk):
 def encoding_work(tier):
     """quick: every chain of length <= 1 (all operations) over every array (every other array of the
     8-element shape at length 1), chains of length 2 over the reduced operation set with a rotating
-    share of the arrays.  thorough: every chain of length <= 2 over every array (every other array of
+    share of the arrays.  thorough: every chain of length <= 2 over every array (every fourth array of
     the 8-element shape at length 2), length 3 reduced / rotating.  All-empty and all-full arrays
     meet every chain."""
     big = tier == "thorough"
@@ -682,7 +684,7 @@ def encoding_work(tier):
         for ci, (chain, vshape) in enumerate(chains):
             # rotation: every chain meets >= 1/stride of the arrays, every array meets 1/stride of the chains
             if len(chain) <= full:
-                stride = 2 if size == 8 and len(chain) == full else 1
+                stride = (4 if big else 2) if size == 8 and len(chain) == full else 1
             else:
                 stride = {3: 1, 4: 2, 6: 4, 8: 16}[size] * (2 if big else 1)
             exh = len(chain) <= 1 and size <= 4
